@@ -15,7 +15,8 @@ var queries []*xsel.Grammar
 var qsrc = []string{
 	"$w | $v | //*", "$v | *", "$v | $w", "* | $v", "$w | $v | //*", "$v/..", "$v[1]", "($v)[last()]", "$v//*[1]",
 	"//@* | $v", "ancestor-or-self::* | $v", "count($v | $w)", "$v[. = $w]",
-	"preceding::node() | $w",
+	"preceding::node() | $w", "//node()", "*/node()", "descendant-or-self::*/node()", "//*/*", "*/node()/..",
+	"//text()/../node()", "$v/node()", "//*/@*/..", "//node()[last()]",
 }
 
 var ambiguous = []string{"f()/a", "$v/a", "(x)/a", "f()", "text()", "a[b]/c", "f()//a", "$v[1]/a"}
@@ -82,22 +83,25 @@ func unchanged(h held, snap []xsel.Cursor) bool {
 	return true
 }
 
+// nodeDigest records everything a caller can observe about a cursor,
+// including the spare capacity of the slices the store hands out.
 type nodeDigest struct {
-	c               xsel.Cursor
-	pos             int
-	parent          xsel.Cursor
-	nCh, nAt, nNs   int
-	firstCh, lastCh xsel.Cursor
+	c      xsel.Cursor
+	pos    int
+	parent xsel.Cursor
+	lists  [3][]xsel.Cursor // Children, Attributes, Namespaces up to capacity
+	lens   [3]int
 }
 
 func digest(b *hx.Built) []nodeDigest {
 	var d []nodeDigest
 	for _, c := range b.Cursors {
-		nd := nodeDigest{c: c, pos: c.Pos(), parent: c.Parent(), nCh: len(c.Children()), nAt: len(c.Attributes()), nNs: len(c.Namespaces())}
-		if nd.nCh > 0 {
-			nd.firstCh, nd.lastCh = c.Children()[0], c.Children()[nd.nCh-1]
+		n := nodeDigest{c: c, pos: c.Pos(), parent: c.Parent()}
+		for k, l := range [][]xsel.Cursor{c.Children(), c.Attributes(), c.Namespaces()} {
+			n.lens[k] = len(l)
+			n.lists[k] = append([]xsel.Cursor(nil), l[:cap(l)]...)
 		}
-		d = append(d, nd)
+		d = append(d, n)
 	}
 	return d
 }
@@ -107,8 +111,18 @@ func sameDigest(a, b []nodeDigest) bool {
 		return false
 	}
 	for k := range a {
-		if a[k] != b[k] {
+		if a[k].c != b[k].c || a[k].pos != b[k].pos || a[k].parent != b[k].parent || a[k].lens != b[k].lens {
 			return false
+		}
+		for j := range a[k].lists {
+			if len(a[k].lists[j]) != len(b[k].lists[j]) {
+				return false
+			}
+			for i := range a[k].lists[j] {
+				if a[k].lists[j][i] != b[k].lists[j][i] {
+					return false
+				}
+			}
 		}
 	}
 	return true
@@ -151,7 +165,7 @@ func genOpts() hx.GenOpts {
 // RunPurity: two queries in sequence over shared cursors, a shared compiled
 // expression and caller-held node-sets with spare capacity.
 func RunPurity() {
-	b := hx.Gen(genOpts())
+	b := hx.GenOrSkeleton(genOpts())
 	nd.Assert(b.TieOK, "store-mirrors-script")
 	nd.Assume(len(b.Doc.Nodes) >= 2)
 	v, w := pick(b, 2, 1), pick(b, 1, 1)
@@ -197,7 +211,7 @@ func RunPurity() {
 // the shared compiled expression or the shared node-set variables is written at
 // all (not even with the same value), so concurrent calls cannot race.
 func RunFootprint() {
-	b := hx.Gen(genOpts())
+	b := hx.GenOrSkeleton(genOpts())
 	nd.Assert(b.TieOK, "store-mirrors-script")
 	nd.Assume(len(b.Doc.Nodes) >= 2)
 	v, w := pick(b, 2, 1), pick(b, 1, 1)
